@@ -34,8 +34,8 @@ for _p, _b, _t in [("C03", 60, "abort oracle: observable state (full scans, inde
                    ("C09", 60, "clean shutdown/reopen injected at quiescent points; query battery before vs after vs model"),
                    ("C10", 60, "DDL interleaved with DML and clean/crash restarts; catalog identity and per-table contents"),
                    ("C14", 60, "seam monitor M-PIN: pin vector before/after every statement (success, refusal, abort)")]:
-    PROPS[_p] = dict(driver="sqlsim+crashsim" if _p == "C10" else "sqlsim", budget=dict(quick=_b, thorough=1200), chunk=40 if _p != "C10" else 16,
-                     rule=SQL_RULE + ("; second driver (alternating chunks): crashsim histories that contain CREATE TABLE operations, restarted from every crash image inside and around the DDL (table present iff its CREATE had returned, or all-or-nothing while in flight; catalog identity checked after every recovered image)" if _p == "C10" else ""),
+    PROPS[_p] = dict(driver={"C10": "sqlsim+crashsim", "C09": "sqlsim+consim", "C03": "sqlsim+consim"}.get(_p, "sqlsim"), budget=dict(quick=_b, thorough=1200), chunk=40 if _p != "C10" else 16,
+                     rule=SQL_RULE + ("; second driver (alternating chunks): crashsim histories that contain CREATE TABLE operations, restarted from every crash image inside and around the DDL (table present iff its CREATE had returned, or all-or-nothing while in flight; catalog identity checked after every recovered image)" if _p == "C10" else "") + ("; second driver (alternating chunks): concurrent insert/delete/update callers under the seeded scheduler with the checkpoint and statistics tasks alive, then Shutdown() (which may catch those tasks in the middle of a pass), reopen, and the same rows must be there" if _p == "C09" else "") + ("; second driver (alternating chunks): concurrent multi-statement transactions under the seeded scheduler, 40% of them ending in an explicit abort and others aborted by a lock conflict in the middle of a statement: nothing an aborted transaction wrote is in the final table and every row it touched is what the committed transactions left" if _p == "C03" else ""),
                      technique="deterministic simulation (sequential driver, restart fault injection) with reference model: " + _t,
                      assumptions=["single driver: statements of different transactions interleave at statement granularity only (sub-statement interleavings are the consim checks)",
                                   "multi-row VALUES lists and parenthesised predicates are not accepted by the SQL front end and are not generated"])
